@@ -715,6 +715,22 @@ func LiveRepoGoroutines() []string {
 	return out
 }
 
+// LiveEnvGoroutines returns descriptions of live goroutines created by harness code (other than
+// the caller), with the operation each is blocked in.
+func LiveEnvGoroutines() []string {
+	var out []string
+	if !live() {
+		return out
+	}
+	for _, g := range ex.gs {
+		if g.state != stDone && g.isEnv && g != ex.cur {
+			out = push(out, g.describe())
+		}
+	}
+	sort.Strings(out)
+	return out
+}
+
 // LiveSpinners returns goroutines currently spinning on a permanently ready select case.
 func LiveSpinners() []string {
 	var out []string
